@@ -187,6 +187,9 @@ pub fn run_case(ctx: &mut Ctx, case: &Value, c09: bool) {
         let mut l = pdiscs.clone(); l.insert(rng.below(l.len() + 1), extra.clone()); edits.push((l, "edit:added-withheld"));
     }
     { let mut l = pdiscs.clone(); l.push(real::b64url_encode(b"[\"s\",\"zz\",1]")); edits.push((l, "edit:added-foreign")); }
+    // an EMPTY segment spliced in after binding (`jwt~~d~kb`, `jwt~d~~kb`): other bytes than the ones the hash covers
+    { let mut l = pdiscs.clone(); l.insert(rng.below(l.len() + 1), String::new()); edits.push((l, "edit:empty-segment")); }
+    { let mut l = pdiscs.clone(); l.push(String::new()); l.insert(0, String::new()); edits.push((l, "edit:empty-segments-at-both-ends")); }
     for (l, label) in edits {
         let p2 = format!("{}~{}{}{}", ic.jwt, l.join("~"), if l.is_empty() { "" } else { "~" }, kb);
         judge(ctx, &ic, &p2, Some(&policy_aud), true, false, label, case);
@@ -266,7 +269,7 @@ pub fn run(ctx: &mut Ctx, replay: Option<&Value>, c09: bool) {
     ctx.report.rule = if c09 {
         "bound tokens (own issuer, and reference issuer with sha-256/384/512) x redaction lists x RS/PS 256/384/512 x 3 build() calls per holder: KB-JWT header/claims decoded by the harness, sd_hash recomputed by the Lean driver over P[..=last '~'], signature checked through decode and through verify_kb and refused under another key, iat within the call window, nonces 32 alphanumerics and pairwise distinct, disclosure part identical across builds; holder model fed the harvested nonce/iat; non-trivial = distinct (tree, redaction list, algorithm)".to_string()
     } else {
-        "bound (85%) and unbound tokens, own and reference-issued; per bound token: holder refuses to build without key binding; genuine presentation x policies (aud / no aud / none / other aud / other alg); KB stripped / swapped; every edit of the disclosure list after binding (remove, reorder, replace, duplicate, add withheld, add foreign); 22 harness-crafted KB-JWTs with exactly one defect each (other key, other alg, typ, sd_hash over other strings / other hash alg / missing / non-string / empty / truncated / extended / case-folded, aud); accept iff no defect; non-trivial = distinct (tree, redaction list, algorithm)".to_string()
+        "bound (85%) and unbound tokens, own and reference-issued; per bound token: holder refuses to build without key binding; genuine presentation x policies (aud / no aud / none / other aud / other alg); KB stripped / swapped; every edit of the disclosure list after binding (remove, reorder, replace, duplicate, add withheld, add foreign, splice in empty segments); 22 harness-crafted KB-JWTs with exactly one defect each (other key, other alg, typ, sd_hash over other strings / other hash alg / missing / non-string / empty / truncated / extended / case-folded, aud); accept iff no defect; non-trivial = distinct (tree, redaction list, algorithm)".to_string()
     };
     if let Some(case) = replay {
         run_case(ctx, case, c09);
